@@ -4,5 +4,6 @@ CONSTANTS
   WB = 7
   Mutant = "none"
   Wide = FALSE
+  Only = {"point", "point3d", "multiply", "bounds", "invert", "scale", "translate"}
   LimbBits <- MCLimbBits
 INVARIANTS Sound DevOK Tight
